@@ -24,9 +24,9 @@ import (
 func TestVerifRace(t *testing.T) {
 	switch vfh.Prop() {
 	case "C17":
-		raceScrapeVsPrepare(t)
+		vfRaceScrapeVsPrepare(t)
 	case "C20":
-		raceTerminator(t)
+		vfRaceTerminator(t)
 	default:
 		t.Skip("no race scenario for this property in package corerad")
 	}
@@ -34,7 +34,7 @@ func TestVerifRace(t *testing.T) {
 
 // the advertiser's Prepare loop (every dial and re-dial) against Prometheus scrapes of the
 // same configuration — as in the daemon, where cmd/corerad hands one cfg to both
-func raceScrapeVsPrepare(t *testing.T) {
+func vfRaceScrapeVsPrepare(t *testing.T) {
 	cfg, err := config.Parse(strings.NewReader("[[interfaces]]\nname = \"eth0\"\nadvertise = true\n"+
 		"[[interfaces.prefix]]\nprefix = \"2001:db8::/64\"\ndeprecated = true\n[[interfaces.route]]\nprefix = \"2001:db8:f::/48\"\ndeprecated = true\n"+
 		"[[interfaces.rdnss]]\nservers = [\"2001:db8::53\"]\n"), time.Now())
@@ -63,7 +63,7 @@ func raceScrapeVsPrepare(t *testing.T) {
 }
 
 // the signal task setting the terminator while tasks ask it
-func raceTerminator(t *testing.T) {
+func vfRaceTerminator(t *testing.T) {
 	srv := NewServer(NewContext(nil, nil, nil))
 	var wg sync.WaitGroup
 	wg.Add(2)
